@@ -1688,7 +1688,8 @@ impl FunctionCompiler<'_> {
                                 self.tys[self.loc].meta_ty(ty).unwrap()
                             }
                             hir::ArmVariant::Shorthand(name) => {
-                                let Ty::Enum { ref variants, .. } = *sum_ty else {
+                                // the scrutinee might be a `distinct` enum
+                                let Ty::Enum { variants, .. } = sum_ty.absolute_ty() else {
                                     unreachable!()
                                 };
 
